@@ -89,9 +89,9 @@ theorem onMsg_signing_view {n n' : Node} {total : Nat} {m : Msg} {ok : Bool} (ho
     subst e
     refine buildView_eq_of false true ?_ ?_ ?_ ?_ ?_
     · rfl
-    · simp [List.filter_append, List.filter_cons, in_announced_signing.1]
+    · simp [List.filter_append, in_announced_signing.1]
     · rfl
-    · simp [List.filter_append, List.filter_cons, in_announced_signing.1, InState.hasPreimage]
+    · simp [List.filter_append, in_announced_signing.1, InState.hasPreimage]
     · rfl
   | cs c =>
     obtain ⟨e, _⟩ := onMsg_cs h
